@@ -256,6 +256,25 @@ func TestVerifC05(t *testing.T) {
 			if ierr != vmAllocErr {
 				c.Violationf("alloc-error-not-returned", "frame allocator failed at request %d but Init returned %v", failAt, ierr)
 			}
+			// whichever address space is active now - the boot one, or the new one when only the last request
+			// (the zeroed frame, after activation) was refused - what was reserved and mapped earlier is still
+			// there: "keep their translations" does not depend on the bring-up getting finished
+			if ierr != nil {
+				if m.cr3 != bootRoot {
+					run.Count("init_failed_after_activation", 1)
+				}
+				for va, fr := range reserved {
+					if got, terr := Translate(va); terr != nil || uint64(got) != fr<<12 {
+						c.Violationf("reservation-lost-after-failed-init", "Init returned %v (allocator refused request %d); early-reserved page %#x (frame %#x) now translates to (%#x, %v) in the address space that is still active", ierr, failAt, va, fr, got, terr)
+						return
+					}
+					run.Count("reserved_pages_checked_after_failed_init", 1)
+				}
+				for _, msg := range func() []string { _, ms := m.takeProblems(); return ms }() {
+					c.Violationf("reservation-lost-after-failed-init", "translating the reserved pages after the failed Init: %s", msg)
+					return
+				}
+			}
 			run.Nontrivial(fp.Int(failAt))
 			return
 		}
